@@ -1,6 +1,6 @@
 (* C21 -- property theorems (statements only) over the definitions regenerated from /repo *)
 From Coq Require Import Reals List.
-From C21 Require Import C21Spec C21_gen C21Proofs C21ProofsO.
+From C21 Require Import C21Spec C21_gen C21_table C21Proofs C21ProofsO C21ProofsT.
 Import ListNotations.
 Local Open Scope R_scope.
 
@@ -74,3 +74,19 @@ Proof.
         (ortho_agps_ok _ _ _ _ _ _ G12 G23 G13 H1 H2 H3 Hd H22))).
 Qed.
 Print Assumptions C21_orthotropic_plane_stress.
+
+(* EVERY (modelling hypothesis, axes convention, alteration) combination that StiffnessTensor.ixx provides (ortho_table is regenerated
+   from the header on every run, one definition traced per row): for non-degenerate constants given in the 3D material frame the
+   tensor is the 3D tensor (inverse of the documented compliance, C21_orthotropic_3d) seen through the documented axis permutation
+   of the convention (PIPE: axes 2 and 3 exchanged in plane stress / plane strain / generalised plane strain), restricted to the
+   components of the hypothesis (UNALTERED, and ALTERED outside plane stress) or condensed on the out-of-plane normal stress
+   (ALTERED plane stress hypotheses). *)
+Theorem C21_orthotropic_all_combinations : Forall (combo_ok ortho3d) ortho_table.
+Proof. exact ortho_table_ok. Qed.
+Print Assumptions C21_orthotropic_all_combinations.
+
+(* every documented combination (7 hypotheses x DEFAULT, PIPE; PLATE in 3D, plane stress, plane strain, generalised plane strain;
+   UNALTERED and ALTERED) is provided by the header, i.e. has a row in the table *)
+Theorem C21_orthotropic_table_complete : keys_complete (map combo_key ortho_table) = true.
+Proof. exact ortho_table_complete. Qed.
+Print Assumptions C21_orthotropic_table_complete.
